@@ -98,6 +98,8 @@ class PersistentMixin(Module):
         try:
             with open(self.persistentFile, 'r', encoding='utf-8') as f:
                 self.persistentData = json.load(f)
+            if not isinstance(self.persistentData, dict):
+                raise ValueError('persistent file does not contain an object')
         except (FileNotFoundError, ValueError):
             self.persistentData = {}
         result = {}
